@@ -372,6 +372,29 @@ fn rsync_single(u: &Rsync, text: &[u8], f: &mut Findings) -> u64 {
         } else if !p.is_parent_of(u) {
             f.push("C12:rsync-parent:not-parent-of-child".into(), "parent(u).is_parent_of(u) is false".into(), d());
         }
+        // equality is decided by the text, also for values that share storage with each other
+        n += 1;
+        let want = ref_eq(&ptext, text);
+        if (p == *u) != want || (*u == p) != want || (want && hash_of(&p) != hash_of(u)) {
+            f.push("C12:rsync-eq-vs-reference:parent-and-child".into(), "== between a URI and its parent() disagrees with their texts".into(), d());
+        }
+    }
+    // path_into_dir keeps the value a valid URI: same text or text plus one slash
+    n += 1;
+    {
+        let mut dval = u.clone();
+        dval.path_into_dir();
+        let dtext = dval.as_slice().to_vec();
+        let d = || json!({"uri": show(text), "after_path_into_dir": show(&dtext)});
+        let mut with_slash = text.to_vec();
+        with_slash.push(b'/');
+        if let Err((l, m)) = rsync_value_laws(&dval, &dtext).and_then(|_| rsync_reparse_laws(&dval)) {
+            f.push(format!("C12:rsync-path_into_dir:{l}"), format!("path_into_dir(): {m}"), d());
+        } else if dtext != text && dtext != with_slash {
+            f.push("C12:rsync-path_into_dir:text-changed".into(), "path_into_dir() changed more than a trailing slash".into(), d());
+        } else if !dval.authority().eq_ignore_ascii_case(u.authority()) {
+            f.push("C12:rsync-path_into_dir:authority-changed".into(), "path_into_dir() changed the authority".into(), d());
+        }
     }
     n
 }
@@ -421,6 +444,27 @@ fn https_single(u: &Https, text: &[u8], f: &mut Findings) -> u64 {
             f.push("C12:https-parent:authority-changed".into(), "parent() has a different authority".into(), d());
         } else if !(ptext.len() < text.len() && text[end..].starts_with(&ptext[pend..])) {
             f.push("C12:https-parent:not-above-child".into(), "path of parent() is not a proper prefix of the child's path".into(), d());
+        }
+        // equality is decided by the text, also for values that share storage with each other
+        n += 1;
+        let want = ref_eq(&ptext, text);
+        if (p == *u) != want || (*u == p) != want || (want && hash_of(&p) != hash_of(u)) {
+            f.push("C12:https-eq-vs-reference:parent-and-child".into(), "== between a URI and its parent() disagrees with their texts".into(), d());
+        }
+    }
+    // path_into_dir keeps the value a valid URI: same text or text plus one slash
+    n += 1;
+    {
+        let mut dval = u.clone();
+        dval.path_into_dir();
+        let dtext = dval.as_slice().to_vec();
+        let d = || json!({"uri": show(text), "after_path_into_dir": show(&dtext)});
+        let mut with_slash = text.to_vec();
+        with_slash.push(b'/');
+        if let Err((l, m)) = https_value_laws(&dval, &dtext).and_then(|_| https_reparse_laws(&dval)) {
+            f.push(format!("C12:https-path_into_dir:{l}"), format!("path_into_dir(): {m}"), d());
+        } else if dtext != text && dtext != with_slash {
+            f.push("C12:https-path_into_dir:text-changed".into(), "path_into_dir() changed more than a trailing slash".into(), d());
         }
     }
     n
